@@ -737,6 +737,10 @@ func (env *Zlisp) ParseFile(file string) ([]Sexp, error) {
 		return nil, err
 	}
 
+	// (also when the text does not parse: every failing include
+	// used to leave its file open)
+	defer in.Close()
+
 	var exp []Sexp
 
 	env.parser.Reset()
@@ -745,8 +749,6 @@ func (env *Zlisp) ParseFile(file string) ([]Sexp, error) {
 	if err != nil {
 		return nil, fmt.Errorf("Error on line %d: %v (ParseFile err = '%#v')\n", env.parser.Linenum(), err, err)
 	}
-
-	in.Close()
 
 	return exp, nil
 }
